@@ -49,8 +49,11 @@ func (e *Exec) intToInt64(t *Term) *Term {
 	if t.Const {
 		return e.tb.BV(64, t.I)
 	}
-	e.ooe("time value flowing into integer arithmetic needs -mode lia")
-	return nil
+	// bv mode: a clock-derived integer becomes an arbitrary 64-bit value (the
+	// relation to the abstract instant is dropped; harnesses that reason about
+	// time use lia mode).
+	e.stubs["bv mode: clock-derived integer = arbitrary int64"] = true
+	return e.newVar("havoc_time_int", SBV(64))
 }
 
 func (e *Exec) saturate64(t *Term) *Term {
@@ -65,6 +68,9 @@ func (e *Exec) saturate64(t *Term) *Term {
 }
 
 func (e *Exec) now() TimeV {
+	if e.clockFixed != nil {
+		return TimeV{NS: e.clockFixed}
+	}
 	t := e.newTimeVar("now")
 	e.clockN++
 	if e.clockMono && e.clockLast != nil {
